@@ -949,6 +949,12 @@ impl fmt::Display for Number {
     }
 }
 
+/// The magnitude of a negative rational, for radix printers that would otherwise
+/// render the numerator as a two's-complement bit pattern.
+fn unsigned_ratio(num: &Rational32) -> num::rational::Ratio<u32> {
+    num::rational::Ratio::new_raw(num.numer().unsigned_abs(), num.denom().unsigned_abs())
+}
+
 fn write_float_fract(mut num: f64, radix: usize, f: &mut Formatter<'_>) -> fmt::Result {
     let mut first_digit = true;
     loop {
@@ -969,6 +975,10 @@ fn write_float_fract(mut num: f64, radix: usize, f: &mut Formatter<'_>) -> fmt::
 impl LowerHex for Number {
     fn fmt(&self, f: &mut Formatter<'_>) -> fmt::Result {
         match self {
+            Number::Fixnum(num) if *num < 0 => {
+                write!(f, "-")?;
+                fmt::LowerHex::fmt(&num.unsigned_abs(), f)
+            }
             Number::Fixnum(num) => fmt::LowerHex::fmt(num, f),
             Number::Float(num) => {
                 if *num < 0_f64 {
@@ -978,6 +988,10 @@ impl LowerHex for Number {
                 write_float_fract(*num, 16, f)
             }
             Number::BigInt(num) => fmt::LowerHex::fmt(num.as_ref(), f),
+            Number::Rational(num) if *num.numer() < 0 => {
+                write!(f, "-")?;
+                fmt::LowerHex::fmt(&unsigned_ratio(num), f)
+            }
             Number::Rational(num) => fmt::LowerHex::fmt(num, f),
         }
     }
@@ -986,6 +1000,10 @@ impl LowerHex for Number {
 impl Octal for Number {
     fn fmt(&self, f: &mut Formatter<'_>) -> fmt::Result {
         match self {
+            Number::Fixnum(num) if *num < 0 => {
+                write!(f, "-")?;
+                fmt::Octal::fmt(&num.unsigned_abs(), f)
+            }
             Number::Fixnum(num) => fmt::Octal::fmt(num, f),
             Number::Float(num) => {
                 if *num < 0_f64 {
@@ -995,6 +1013,10 @@ impl Octal for Number {
                 write_float_fract(*num, 8, f)
             }
             Number::BigInt(num) => fmt::Octal::fmt(num.as_ref(), f),
+            Number::Rational(num) if *num.numer() < 0 => {
+                write!(f, "-")?;
+                fmt::Octal::fmt(&unsigned_ratio(num), f)
+            }
             Number::Rational(num) => fmt::Octal::fmt(num, f),
         }
     }
@@ -1003,6 +1025,10 @@ impl Octal for Number {
 impl Binary for Number {
     fn fmt(&self, f: &mut Formatter<'_>) -> fmt::Result {
         match self {
+            Number::Fixnum(num) if *num < 0 => {
+                write!(f, "-")?;
+                fmt::Binary::fmt(&num.unsigned_abs(), f)
+            }
             Number::Fixnum(num) => fmt::Binary::fmt(num, f),
             Number::Float(num) => {
                 if *num < 0_f64 {
@@ -1012,6 +1038,10 @@ impl Binary for Number {
                 write_float_fract(*num, 2, f)
             }
             Number::BigInt(num) => fmt::Binary::fmt(num.as_ref(), f),
+            Number::Rational(num) if *num.numer() < 0 => {
+                write!(f, "-")?;
+                fmt::Binary::fmt(&unsigned_ratio(num), f)
+            }
             Number::Rational(num) => fmt::Binary::fmt(num, f),
         }
     }
